@@ -233,6 +233,10 @@ func StrictIntRightBitshift[T StrictInt](left T, right Value) (T, Value) {
 				return left >> rSmall, Undefined
 			}
 
+			// the amount is beyond every width: an arithmetic right shift leaves only the sign
+			if left < 0 && r.ToGoBigInt().Sign() > 0 {
+				return ^T(0), Undefined
+			}
 			return 0, Undefined
 		default:
 			return 0, Ref(NewBitshiftOperandError(right))
@@ -310,6 +314,10 @@ func StrictIntLeftBitshift[T StrictInt](left T, right Value) (T, Value) {
 				return left << rSmall, Undefined
 			}
 
+			// the amount is beyond every width: an arithmetic right shift leaves only the sign
+			if left < 0 && r.ToGoBigInt().Sign() < 0 {
+				return ^T(0), Undefined
+			}
 			return 0, Undefined
 		default:
 			return 0, Ref(NewBitshiftOperandError(right))
